@@ -3,6 +3,7 @@ I_job (and the well-formedness of caller continuations) hold in every reachable 
 -/
 import DesyncModel.Inv.JobStep
 import DesyncModel.Inv.HolderReach
+import DesyncModel.Spec
 
 namespace Desync
 open Gen
@@ -18,7 +19,7 @@ theorem jobInv_wf_setChild {s : State} (hw : WfInv s) (h : JobInv s) (p : Nat) (
   split
   · next pv hpv =>
     have hpc : ∀ b, (s.setAct p { pv with child := c }).pcAt b = s.pcAt b := fun b => pcAt_setAct_samepc _ p pv { pv with child := c } hpv rfl b
-    exact ⟨wfInv_of_same hw (fun b => by rw [hpc]), JobInv.of_eq h (fun b => by rw [hpc]) (fun _ => rfl) (fun _ => rfl)⟩
+    exact ⟨wfInv_of_same hw (fun b => by rw [hpc]), JobInv.of_eq h (fun b => by rw [hpc]) (fun _ => rfl) (fun _ => rfl) (fun _ => rfl)⟩
   · exact ⟨hw, h⟩
 
 theorem jobInv_wf_addAct {s s0 : State} (hw : WfInv s) (h : JobInv s) (t : Nat) (parent : Option Nat) (pc : Pc) (once : Bool)
@@ -64,7 +65,7 @@ theorem jobInv_wf_bodyEnd {s s' : State} {a : Nat} {o : Obs} (hw : WfInv s) (h :
         have hk := hw a
         rw [pcAt_of ha, hpc] at hk
         exact ⟨WfInv.keep_goto (s := s) (fun b => hw b) (by simpa [Pc.callerOk] using hk),
-               JobInv.frame h (fun _ => rfl) (fun _ => rfl) (fun _ => rfl) (by rw [pcAt_of ha, hpc]; rfl)⟩
+               JobInv.frame h (fun _ => rfl) (fun _ => rfl) (fun _ => rfl) (fun _ hi => Or.inl hi) (by rw [pcAt_of ha, hpc]; rfl)⟩
       · simp at hs
   · simp at hs
 
@@ -78,7 +79,7 @@ theorem jobInv_wf_spuriousUnpark {s s' : State} {a : Nat} {o : Obs} (hw : WfInv 
       have hk := hw a
       rw [pcAt_of ha, hpc] at hk
       exact ⟨WfInv.keep_goto (s := s) (fun b => hw b) (by simpa [Pc.callerOk] using hk),
-             JobInv.frame h (fun _ => rfl) (fun _ => rfl) (fun _ => rfl) (by rw [pcAt_of ha, hpc]; rfl)⟩
+             JobInv.frame h (fun _ => rfl) (fun _ => rfl) (fun _ => rfl) (fun _ hi => Or.inl hi) (by rw [pcAt_of ha, hpc]; rfl)⟩
     · simp at hs
   · simp at hs
 
@@ -90,11 +91,11 @@ theorem jobInv_wf_spuriousPoll {s s' : State} {a : Nat} (hw : WfInv s) (h : JobI
     · next f hpc =>
       cases Option.some.inj hs
       exact ⟨WfInv.keep_goto (s := s) (fun b => hw b) (by simp [Pc.callerOk]),
-             JobInv.frame h (fun _ => rfl) (fun _ => rfl) (fun _ => rfl) (by rw [pcAt_of ha, hpc]; rfl)⟩
+             JobInv.frame h (fun _ => rfl) (fun _ => rfl) (fun _ => rfl) (fun _ hi => Or.inl hi) (by rw [pcAt_of ha, hpc]; rfl)⟩
     · next u hpc =>
       cases Option.some.inj hs
       exact ⟨WfInv.keep_goto (s := s) (fun b => hw b) (by simp [Pc.callerOk]),
-             JobInv.frame h (fun _ => rfl) (fun _ => rfl) (fun _ => rfl) (by rw [pcAt_of ha, hpc]; rfl)⟩
+             JobInv.frame h (fun _ => rfl) (fun _ => rfl) (fun _ => rfl) (fun _ hi => Or.inl hi) (by rw [pcAt_of ha, hpc]; rfl)⟩
     · simp at hs
   · simp at hs
 
@@ -107,7 +108,7 @@ theorem jobInv_wf_ret {s s' : State} {a r : Nat} (hw : WfInv s) (h : JobInv s) (
       obtain ⟨rfl, _⟩ := Prod.mk.inj (Option.some.inj hs)
       have hw1 : WfInv (s.setAct a { act with pc := .dead }) := WfInv.keep_setAct (s := s) (fun b => hw b) (by simp [Pc.callerOk])
       have h1 : JobInv (s.setAct a { act with pc := .dead }) :=
-        JobInv.frame_setAct h (fun _ => rfl) (fun _ => rfl) (fun _ => rfl) (by rw [pcAt_of ha, hpc]; rfl)
+        JobInv.frame_setAct h (fun _ => rfl) (fun _ => rfl) (fun _ => rfl) (fun _ hi => Or.inl hi) (by rw [pcAt_of ha, hpc]; rfl)
       split
       · next p hp => exact jobInv_wf_setChild hw1 h1 p none
       · exact ⟨hw1, h1⟩
@@ -172,5 +173,40 @@ theorem running_jobs_exclusive {s : State} (hr : Reachable s) {j1 j2 a1 a2 : Nat
   have r2 := h.run2 a1 j2 b2.q (by rw [jobPQ_of h2, hp2])
   rw [r1] at r2
   simpa using congrArg Prod.fst (Option.some.inj r2)
+
+end Desync
+
+namespace Desync
+open Gen
+
+/-- **C01 in the model: at most one operation per object is open** — between the invocation of its closure and its
+completion or destruction, including every suspension of a future operation at an await — in every reachable state:
+any number of objects, threads and calls, any pool size, any interleaving. -/
+theorem exclusive_reachable {s : State} (hr : Reachable s) : Exclusive s := by
+  obtain ⟨hw, h⟩ := jobInv_reachable hr
+  intro j1 j2 b1 b2 h1 h2 hq ho1 ho2
+  have o1 : s.jobOpen j1 = true := by rw [jobOpen_of h1]; exact ho1
+  have o2 : s.jobOpen j2 = true := by rw [jobOpen_of h2]; exact ho2
+  have p1 := jobPQ_of h1
+  have p2 := jobPQ_of h2
+  rcases h.open1 j1 o1 with ⟨a1, q1, e1⟩ | ⟨q1, l1, e1, hl1⟩ <;> rcases h.open1 j2 o2 with ⟨a2, q2, e2⟩ | ⟨q2, l2, e2, hl2⟩
+  · rw [p1] at e1; rw [p2] at e2
+    simp at e1 e2
+    exact running_jobs_exclusive hr h1 h2 hq e1.1 e2.1
+  · rw [p1] at e1; rw [p2] at e2
+    simp at e1 e2
+    have := h.open4 j1 j2 a1 b1.q (by rw [p1, e1.1]) (by rw [p2, e2.1, hq])
+    rw [o2] at this; cases this
+  · rw [p1] at e1; rw [p2] at e2
+    simp at e1 e2
+    have := h.open4 j2 j1 a2 b2.q (by rw [p2, e2.1]) (by rw [p1, e1.1, hq])
+    rw [o1] at this; cases this
+  · rw [p1] at e1; rw [p2] at e2
+    simp at e1 e2
+    have hq12 : q1 = q2 := by rw [← e1.2, ← e2.2, hq]
+    subst hq12
+    rw [hl1] at hl2
+    simp at hl2
+    exact hl2.1
 
 end Desync
